@@ -33,6 +33,7 @@ type Opts struct {
 	MainPkg       bool // leave meta.pkg unset (package main)
 	ContextualBias bool
 	TagBias       bool // many tags, priorities with ties, several decorators
+	NoGlobals     bool // no service is a package-level variable (race-free user code for C20)
 	ScopeProb     float64
 }
 
@@ -431,6 +432,9 @@ func (g *G) service(name string, before, params []string) cfg.Service {
 		s.Constructor = cfg.P(g.Ref(pkg, "NewErr"))
 	case k < 18:
 		sym := choose(g, "Global", "GlobalPtr", "Box.Inner", "Box.Ptr", "Obj{}", "Obj{}", "GlobalVal")
+		if g.O.NoGlobals {
+			sym = choose(g, "Obj{}", "Obj{}", "GlobalVal")
+		}
 		amp := ""
 		switch sym {
 		case "Global", "Box.Inner", "Obj{}":
